@@ -145,7 +145,10 @@ impl Mv {
             Kind::Struct => format!("{}:{}", self.x, arr(&self.ints)),
             Kind::Tuple => format!("({}, {})", arr(&self.ints), self.s),
             Kind::EnumPayload => format!("Fu{}", arr(&self.ints)),
-            Kind::Str => format!("{}#", self.s),
+            Kind::Str => match self.s.split_once('+') {
+                Some((a, b)) => format!("{a}#+{b}"),
+                None => format!("{}#", self.s),
+            },
             Kind::OptArr => format!("some{}", arr(&self.ints)),
             Kind::ArrStr => format!("[ {} ]", self.ints.iter().map(|n| format!("s{n}")).chain(std::iter::once(self.s.clone())).collect::<Vec<_>>().join(", ")),
             Kind::OptInt => format!("some{}", self.scalar()),
@@ -198,6 +201,42 @@ impl Mv {
                 self.x = n;
                 format!("{ind}{v}.n = {nl}\n")
             }
+        }
+    }
+
+    /// Statements that make the current task produce the value it passes on: mutable kinds are mutated
+    /// in place (returns `v` itself), immutable kinds are re-created as a fresh object of the current
+    /// task's heap in a new variable (returns its name). The model is updated alike.
+    pub fn forward(&mut self, v: &str, n: i64, ind: &str) -> (String, String) {
+        let w = format!("{v}w");
+        match self.kind {
+            Kind::OptInt => {
+                let base = self.scalar();
+                self.ints = vec![base + n];
+                (format!("{ind}let {w}: option<int> = match {v} {{\n{ind}  .some(k) -> option.some(k + {n})\n{ind}  .none -> option.none\n{ind}}}\n"), w)
+            }
+            Kind::EnumPlain => (format!("{ind}let {w} = match {v} {{\n{ind}  .Em -> Bx.Em\n{ind}  .Fu(a) -> Bx.Fu(a)\n{ind}}}\n"), w),
+            Kind::BigEnum => {
+                // value independent (the forwarding task does not know which variant arrives): a fresh
+                // object of the same variant for every index the generator uses
+                let mut t = format!("{ind}let {w} = match {v} {{\n");
+                for k in 250..BIG_VARIANTS {
+                    t.push_str(&format!("{ind}  .Gx{k} -> Big.Gx{k}\n"));
+                }
+                t.push_str(&format!("{ind}  _ -> Big.Gx0\n{ind}}}\n"));
+                (t, w)
+            }
+            Kind::Str => {
+                self.s = format!("{}+{n}", self.s);
+                (format!("{ind}let {w} = {v} .. \"+{n}\"\n"), w)
+            }
+            Kind::RecOpt => {
+                let base = self.scalar();
+                self.ints = vec![base + n];
+                self.x = n;
+                (format!("{ind}let {w} = Ro(match {v}.o {{\n{ind}  .some(k) -> option.some(k + {n})\n{ind}  .none -> option.none\n{ind}}}, Bx.Em, {n})\n"), w)
+            }
+            _ => (self.mutate(v, n, ind), v.to_string()),
         }
     }
 }
